@@ -50,7 +50,9 @@ class InitMethod(MethodDescriptor):
                 "__spec_class_initializing__", True, force=True, skip_invalidation=True
             )
             for parent in reversed(spec_cls.mro()[1:]):
-                parent_metadata = getattr(parent, "__spec_class__", None)
+                # (Only classes that are themselves spec-classes; plain classes
+                # in between merely inherit their parent's metadata/constructor.)
+                parent_metadata = parent.__dict__.get("__spec_class__", None)
                 if parent_metadata:
                     parent_kwargs = {}
                     for attr in parent_metadata.attrs:
